@@ -34,6 +34,22 @@ def stream_case(rng):
         docs[src][host] = {kind: ref}
     else:
         docs[src][host] = {kind: ref, "local": 1}
+    if rng.random() < 0.25:
+        # candidate documents (the host itself included) that carry a ROOT-level map-form reference beside ordinary
+        # keys: they are still candidates for a cross-document pattern (only placeholder-ONLY maps never match)
+        for i in rng.sample(range(len(docs)), rng.randint(1, len(docs))):
+            # (a root-level $merge of the document's own child would be the branching self-reference of KF-C08-1)
+            j = rng.choice([x for x in range(len(docs)) if x != i] or [i])
+            mp = [k for k, v in docs[j].items() if isinstance(v, dict) and not k.startswith("$")]
+            if mp and j != i:
+                docs[i]["$merge"] = {"$match": {"kind": docs[j]["kind"]}, "$path": rng.choice(mp)}
+            else:
+                own = [k for k, v in docs[i].items() if isinstance(v, dict) and not k.startswith("$")]
+                if own:
+                    docs[i]["$replace"] = rng.choice(own)
+        if rng.random() < 0.5:
+            for d in docs:
+                d["kind"] = "same"            # ambiguous on purpose: an error, whatever else the documents carry
     steps = [{"merge": {"id": f"D{i}", "parents": [], "data": d}} for i, d in enumerate(docs)]
     steps += [{"docs": True}, {"outdocs": True}]
     return {"steps": steps, "env": gen.ENV}
